@@ -437,9 +437,9 @@ func (u *U) seedMsg(url string) sdk.Msg {
 	case "/sunrise.da.v1.MsgPublishData":
 		return &datypes.MsgPublishData{Sender: a(i), MetadataUri: fmt.Sprintf("ipfs://m%d", u.r.N(100000)), ParityShardCount: 1, ShardDoubleHashes: [][]byte{bytes.Repeat([]byte{1}, 32), bytes.Repeat([]byte{2}, 32)}}
 	case "/sunrise.da.v1.MsgSubmitInvalidity":
-		return &datypes.MsgSubmitInvalidity{Sender: a(i), MetadataUri: "ipfs://d1", Indices: []int64{int64(u.r.N(3))}}
+		return &datypes.MsgSubmitInvalidity{Sender: a(i), MetadataUri: "ipfs://d1", Indices: []int64{int64(u.r.N(6)) - 1}}
 	case "/sunrise.da.v1.MsgSubmitValidityProof":
-		return &datypes.MsgSubmitValidityProof{Sender: a(u.r.N(2)), ValidatorAddress: val, MetadataUri: "ipfs://d2", Indices: []int64{int64(u.r.N(3))}, Proofs: [][]byte{u.proofBz}}
+		return &datypes.MsgSubmitValidityProof{Sender: a(u.r.N(2)), ValidatorAddress: val, MetadataUri: "ipfs://d2", Indices: []int64{int64(u.r.N(6)) - 1}, Proofs: [][]byte{u.proofBz}} // d2 has 3 shards: -1 … 4 straddles both ends
 	case "/sunrise.da.v1.MsgRegisterProofDeputy":
 		return &datypes.MsgRegisterProofDeputy{Sender: a(i), DeputyAddress: a(3)}
 	case "/sunrise.da.v1.MsgUnregisterProofDeputy":
